@@ -4,7 +4,7 @@
 (* connection.go NewConnection).  An address is a sequence of tokens;      *)
 (* ":" ";" "@" are tokens of their own, P R N H PORT BADH PORTX are        *)
 (* placeholders the driver concretises (absolute path, relative path,      *)
-(* abstract name, 127.0.0.1, a free port, an unresolvable host, a          *)
+(* abstract name, 127.0.0.1, [::1] (H6), a free port, an unresolvable host, a *)
 (* non-numeric port).  ParseAddr is the specification's reading of a       *)
 (* string; TLC enumerates strings x histories and judges what the real     *)
 (* Bind / DoListen / Shutdown / NewConnection were observed to do.         *)
@@ -19,6 +19,7 @@ CONSTANT Dev
 
 Protos == {"unix", "tcp", "UNIX", "unixpacket", "unixgram", "tcp4", "udp", "xyz", ""}
 Rests == {<<>>, <<"@">>, <<"@", "N">>, <<"R">>, <<"P">>, <<"H", ":", "PORT">>, <<":", "PORT">>, <<"localhost", ":", "PORT">>,
+          <<"H6", ":", "PORT">>,      \* an IPv6 literal in brackets ([::1]); the driver skips the case on a machine without IPv6 loopback
           <<"H">>, <<"BADH", ":", "PORT">>, <<"H", ":", "PORTX">>}
 Tails == {<<>>, <<";">>, <<";", "mode=0600">>, <<";", "a", ";", "b">>, <<";", "x", ":", "y">>}
 Strings == {<<p, ":">> \o r \o t : p \in Protos, r \in Rests, t \in Tails}
@@ -43,7 +44,7 @@ ParseAddr(a) ==
               IF addr = <<>> THEN [v |-> "refuse", kind |-> "", why |-> "emptyunix"]
               ELSE IF addr[1] = "@" THEN [v |-> IF Len(addr) = 1 THEN "either" ELSE "bind", kind |-> "abs", why |-> ""]
               ELSE [v |-> "bind", kind |-> "fs", why |-> ""]
-       ELSE IF addr \in {<<"H", ":", "PORT">>, <<":", "PORT">>, <<"localhost", ":", "PORT">>}
+       ELSE IF addr \in {<<"H", ":", "PORT">>, <<":", "PORT">>, <<"localhost", ":", "PORT">>, <<"H6", ":", "PORT">>}
             THEN [v |-> "bind", kind |-> "tcp", why |-> ""]
             ELSE [v |-> "either", kind |-> "tcp", why |-> ""]
 
@@ -51,6 +52,7 @@ ParseAddr(a) ==
 Allowed(c, o) ==
   LET p == ParseAddr(c.addr) IN
   IF c.hist = "client" THEN o.out \in {"ok", "err"}
+  ELSE IF o.skip THEN \E i \in 1..Len(c.addr) : c.addr[i] = "H6"      \* (no IPv6 loopback here)
   ELSE
   /\ o.again = "ok"                                    \* the service can always be bound again
   /\ \/ /\ p.v = "refuse" /\ o.out = "err"
